@@ -21,11 +21,26 @@ func runTreeViaMiddleware(pats, probes []string) SL {
 	res := make(SL, len(probes))
 	_ = m.Config() // a read in between must not matter
 	for i, o := range probes {
-		out := serveOnce(m, reqT{method: "GET", hdrs: http.Header{"Origin": {o}}}, http.Header{})
+		hd := http.Header{"Origin": {o}}
+		if i%3 == 1 { // unrelated request headers (fetch metadata, cookies, ...) must not matter
+			for k, vs := range treeExtraHeaders[(i/3)%len(treeExtraHeaders)] {
+				hd[k] = vs
+			}
+		}
+		out := serveOnce(m, reqT{method: "GET", hdrs: hd}, http.Header{})
 		v := out.hdrs["Access-Control-Allow-Origin"]
 		res[i] = Bool(len(v) == 1 && v[0] == o)
 	}
 	return res
+}
+
+var treeExtraHeaders = []http.Header{
+	{"Sec-Fetch-Mode": {"no-cors"}, "Sec-Fetch-Site": {"cross-site"}},
+	{"Sec-Fetch-Mode": {"navigate"}, "Sec-Fetch-Dest": {"document"}},
+	{"Sec-Fetch-Mode": {"same-origin"}, "Sec-Fetch-Site": {"same-origin"}},
+	{"Sec-Fetch-Mode": {"websocket"}, "Cookie": {"a=b"}},
+	{"Sec-Fetch-Mode": {"cors"}, "Authorization": {"Bearer x"}, "Referer": {"https://attacker.example/"}},
+	{"X-Forwarded-Host": {"example.com"}, "Forwarded": {"for=1.2.3.4"}},
 }
 
 // C01: pattern lists (every order) x near-miss origins.
